@@ -72,6 +72,33 @@ type gen struct {
 
 var childKinds = []fkind{kCall, kCall, kCall, kCallCode, kDelegate, kDelegate, kStatic, kStatic, kCreate, kCreate, kCreate2, kCreate2}
 
+// precompileLeaf: a call to one of the precompiled contracts 0x01..0x12, mostly a CALL with value,
+// with the stipend only / too little / ample gas and empty / well-shaped / rejected input.
+func (g *gen) precompileLeaf() *node {
+	t := g.t
+	g.nodes++
+	n := &node{out: oReturn}
+	n.pre = rapid.SampledFrom([]int{1, 1, 1, 5, 6, 6, 7, 7, 7, 8, 8, 8, 9, 9, 9, 2, 3, 4, 10, 11, 12, 13, 14, 15, 16, 17, 18}).Draw(t, "precompile")
+	n.kind = rapid.SampledFrom([]fkind{kCall, kCall, kCall, kCall, kCall, kCallCode, kDelegate, kStatic}).Draw(t, "preKind")
+	if n.kind == kCall || n.kind == kCallCode {
+		n.value = uint64(rapid.SampledFrom([]int{1, 1, 1, 2, 3, 0}).Draw(t, "preValue"))
+	}
+	switch rapid.IntRange(0, 5).Draw(t, "preGas") {
+	case 0, 1:
+		n.gasArg = 0 // the 2300 stipend only
+	case 2:
+		if c := preMinCost[n.pre]; c > 2400 {
+			n.gasArg = c - 2301 - uint64(rapid.IntRange(0, 50).Draw(t, "below")) // just below the price even with the stipend
+		} else {
+			n.gasArg = uint64(rapid.IntRange(0, 40).Draw(t, "tiny"))
+		}
+	default:
+		n.gasArg = 600_000
+	}
+	n.preInput = rapid.SampledFrom([]int{0, 1, 1, 1, 2, 2, 3}).Draw(t, "preInput")
+	return n
+}
+
 func (g *gen) node(kind fkind, depth int, static bool) *node {
 	static = static || kind == kStatic
 	t := g.t
@@ -103,9 +130,9 @@ func (g *gen) node(kind fkind, depth int, static bool) *node {
 	} else if static && rapid.IntRange(0, 3).Draw(t, "staticFocus") > 0 {
 		nsteps = rapid.IntRange(1, 2).Draw(t, "staticSteps") // a single state-modifying opcode decides the frame
 	}
-	nchildren := 0
+	nchildren, npre := 0, 0
 	for i := 0; i < nsteps; i++ {
-		k := rapid.IntRange(0, 11).Draw(t, "stepKind")
+		k := rapid.IntRange(0, 13).Draw(t, "stepKind")
 		switch {
 		case k <= 1:
 			n.steps = append(n.steps, step{k: sSstore, slot: uint64(rapid.IntRange(0, nSlots-1).Draw(t, "slot")), val: uint64(rapid.IntRange(0, 9).Draw(t, "val"))})
@@ -120,6 +147,11 @@ func (g *gen) node(kind fkind, depth int, static bool) *node {
 			n.steps = append(n.steps, s)
 		case (k == 7 || k == 8) && g.auth:
 			n.steps = append(n.steps, step{k: sAuthCall, to: rapid.IntRange(0, len(eoas)-1).Draw(t, "to"), amount: uint64(rapid.IntRange(0, 3).Draw(t, "amount"))})
+		case k >= 12:
+			if g.nodes < g.maxNodes+4 {
+				n.steps = append(n.steps, step{k: sChild, child: g.precompileLeaf()})
+				npre++ // its status travels in the report, so the frame must RETURN it
+			}
 		case k == 6:
 			n.steps = append(n.steps, step{k: sTransfer, to: rapid.IntRange(0, len(eoas)-1).Draw(t, "to"), amount: uint64(rapid.IntRange(1, 4).Draw(t, "amount"))})
 		default:
@@ -143,12 +175,12 @@ func (g *gen) node(kind fkind, depth int, static bool) *node {
 		n.out = oReturn
 	case o == 9:
 		n.out = oSelfdestruct
-		if nchildren > 0 {
+		if nchildren+npre > 0 {
 			n.out = oReturn
 		}
 	case o == 10:
 		n.out = oStop
-		if nchildren > 0 || kind.creates() {
+		if nchildren+npre > 0 || kind.creates() {
 			n.out = oReturn
 		}
 	case o <= 12:
@@ -234,7 +266,7 @@ func addReentries(t *rapid.T, root *node, pct int) {
 		if n.parent == nil || len(n.steps) != 0 && len(n.children()) != 0 {
 			return
 		}
-		if len(n.children()) != 0 {
+		if len(n.children()) != 0 || n.pre > 0 {
 			return
 		}
 		pool := &callLeaves
@@ -677,7 +709,45 @@ func classify(tree *node, rp, pred *replayer, prefix string) string {
 				}
 			}
 		}
+		if okp, reached := rp.used[n.id]; reached && n.pre > 0 {
+			name := "precompile_value_call"
+			if !(n.kind == kCall && n.value > 0) {
+				name = "precompile_call(no value or " + kindName[n.kind] + ")"
+			}
+			switch {
+			case okp:
+				name += "_succeeded"
+			case rp.why[n.id] == "insufficient balance":
+				name += "_not_started(insufficient balance)"
+			case n.preInput >= 2 && n.gasArg >= 600_000:
+				name += "_failed_bad_input"
+			case n.preInput <= 1:
+				name += "_failed_oog"
+			default:
+				name += "_failed_oog_or_bad_input"
+			}
+			stats.Class(prefix + name)
+			if !okp && n.kind == kCall && n.value > 0 {
+				parentFails := false
+				for q := n.parent; q != nil; q = q.parent {
+					if o, r := pred.used[q.id]; r && !o {
+						parentFails = true
+					}
+				}
+				if parentFails {
+					stats.Class(prefix + "precompile_value_call_failed_inside_frame_that_reverts_later")
+				} else {
+					stats.Class(prefix + "precompile_value_call_failed_inside_successful_frames")
+				}
+			}
+			stats.Class(fmt.Sprintf("%sprecompile_target:%d", prefix, n.pre))
+		}
 		ok, reached := rp.used[n.id]
+		if !reached && n.pre > 0 && n.kind == kCall && n.value > 0 {
+			if p, r := pred.used[n.id]; r && !p { // sits below a frame that failed: visible to the cut-before/cut-after comparison only
+				stats.Class(prefix + "precompile_value_call_failing_below_a_frame_that_reverts(predicted)")
+			}
+		}
 		if !reached {
 			stats.Class(prefix + "frame:unreached")
 			return
